@@ -260,3 +260,20 @@ package types
 //@ prelude
 //@ (define-fun decodeBeacon ((b (Slice Int))) beacon.Beacon (unmarshal.beacon.Beacon b))
 //@ end
+
+// ---------------------------------------------------------------- stateless validation (run by baseapp before any handler) and the authority signer
+//@ func MsgRegisterBeacon.ValidateBasic(msg) (err)
+//@   props C07 C09 C13
+//@   nopanic
+//@   ensures err == nil ==> validBech32(msg.Owner) && 1 <= len(msg.Moniker) && len(msg.Moniker) <= 64 && 1 <= len(msg.Name) && len(msg.Name) <= 128
+//@ func MsgPurchaseBeaconStateStorage.ValidateBasic(msg) (err)
+//@   props C08 C13
+//@   nopanic
+//@   ensures err == nil ==> validBech32(msg.Owner) && msg.BeaconId >= 1 && msg.Number >= 1
+//@ func (*MsgUpdateParams).ValidateBasic(m) (err)
+//@   props C16 C13
+//@   ensures err == nil ==> validBech32(m.Authority) && validDenom(m.Params.Denom) && m.Params.FeeRegister >= 1 && m.Params.FeeRecord >= 1 && m.Params.FeePurchaseStorage >= 1 && m.Params.DefaultStorageLimit >= 1 && m.Params.DefaultStorageLimit <= m.Params.MaxStorageLimit
+//@ func (*MsgUpdateParams).GetSigners(m) (signers)
+//@   props C13
+//@   requires validBech32(m.Authority)
+//@   ensures len(signers) == 1 && signers[0] == addrOf(m.Authority)
